@@ -12,7 +12,7 @@ fn main() {
             rx_noise: true,
             only: &["slot-lost", "txrx-panic", "app-panic"],
         },
-        150,
+        300,
         4000,
     );
 }
